@@ -8,6 +8,27 @@ PY = '/venv/bin/python'
 
 # property -> (category, level text, level note, technique, design ref)
 CLAIMED = {
+    'C04': ('proof',
+            'Obligations about the exact-arithmetic content of the formulas as written, discharged by normal-form computation in a polynomial '
+            'domain over Q[cos/sin symbols, matrix and vector entries] modulo sin^2+cos^2=1 (and |axis|=1): from_angle equals roll.pitch.yaw under '
+            'the product extracted from _mat_mul; orthonormality and det=+1 of every rotation constructor; _mat_mul/_vec_rot/transpose index '
+            'patterns and associativity; the atan2 argument pairs of the Euler extraction in both branches; the same for the Cython siblings. '
+            'Operand dispatch is decided by statically resolving the operator protocol for all 7x4 operand classes x {@, @=} and interpreting the '
+            'selected arms over abstract objects, comparing value and result class with the documented table.',
+            'Trusted: CPython ast, engine/poly.py (monomial-dict arithmetic + square-rewriting normal form), engine/mathobj.py, the pyx-lite front '
+            'end. Exact real arithmetic is assumed; floating-point rounding, the pole neighbourhood bound and inverse() are not claimed.',
+            'static: abstract interpretation in a polynomial domain + static operator-protocol resolution over the class table',
+            'DESIGN.md section 3, C04'),
+    'C05': ('other',
+            'Repository-specific static rules: every store to an angle field (Python and Cython) is double-modulo normalised / a literal in range / a '
+            'same-field copy, with raw-constructor helpers discharged at their call sites; frozen classes expose no in-place API over their whole MRO '
+            '(exec-generated operators expanded); the private in-place mutators are applied only to targets that are fresh in the caller (method '
+            'summaries: X.copy() is fresh only if copy() of every class X may have constructs) and the dispatch interpreter observes no operand '
+            'mutation for any operand pair; copies construct; format_float fixes the sign after rounding and is the only formatter used by str/join/repr.',
+            'Trusted: CPython ast, engine/mathobj.py, pyx-lite regexes for the Cython stores. Assumes IEEE fmod semantics for x % 360.0 % 360.0. '
+            'The numeric "parses back within 5e-7" clause is not claimed.',
+            'static: store-site normal-form rule + ownership/freshness summaries + operator dispatch interpretation',
+            'DESIGN.md section 3, C05'),
     'C03': ('other',
             'Static rules plus an exhaustive tabulation of the transition function of every loop in Tokenizer._get_token / _handle_comment / '
             '_handle_string over a finite abstraction (alphabet partition = every character the code mentions + OTHER + EOF; the 7 option flags, '
